@@ -824,7 +824,7 @@ def MatchExpr(e, m, tks, result = None):
     elif isinstance(e, ExprMem):
         if not isinstance(m, ExprMem):
             return False
-        if e.size != m.size:
+        if e.size != m.size or e.segm != m.segm:
             return False
         return MatchExpr(e.arg, m.arg, tks, result)
     elif isinstance(e, ExprSlice):
@@ -845,6 +845,8 @@ def MatchExpr(e, m, tks, result = None):
         return result
     elif isinstance(e, ExprCompose):
         if not isinstance(m, ExprCompose):
+            return False
+        if len(e.args) != len(m.args):
             return False
         for a1, a2 in zip(e.args, m.args):
             if a1[1] != a2[1] or a1[2] != a2[2]:
